@@ -94,9 +94,26 @@ def run_case(spec):
         r = S.cmd('start', timeout=TMO)
         n_ops = rng.randint(20, 40 if tier == 'quick' else 70)
         local_wps = {}        # watchpoint number -> local name (several locals of one scope share one end-of-scope breakpoint)
+        restarted_after_exit = False
         for step in range(n_ops):
-            if S.exited or v.violations:
+            if v.violations:
                 break
+            if S.exited:
+                # the program ran to its end: start it again once - watchpoints on globals and raw addresses must be armed again
+                if restarted_after_exit or not any(kk != 'local-expr' for (a, s_, c, kk) in model.values()):
+                    break
+                restarted_after_exit = True
+                ops.append('restart-after-exit')
+                for num in [n_ for n_, (a, s_, c, kk) in model.items() if kk == 'local-expr']:
+                    model.pop(num)
+                local_wps = {}
+                r = S.cmd('restart', timeout=TMO)
+                if 'ok' not in r:
+                    break
+                v.count('restarts_after_exit')
+                if not S.exited:
+                    check(r, 'after-restart-after-exit')
+                continue
             k = rng.random()
             if k < 0.34:
                 # ---- add
